@@ -1,5 +1,6 @@
 import json, subprocess, sys
-needs=json.load(open('/tmp/needs3.json'))
+import os
+needs=json.load(open('/tmp/needs3.json' if os.path.exists('/tmp/needs3.json') else '/verif/tools/seeding/needs.json'))
 res=json.loads(sys.argv[1])
 for k,v in res.items():
     pid,i=k.split('-')
